@@ -889,6 +889,16 @@ fn run_child(mode: &str, file: &std::path::Path, timeout: Duration) -> ChildOutc
                     let (c0, _) = proc_sample(ch.id());
                     std::thread::sleep(Duration::from_millis(1000));
                     let (c1, ts) = proc_sample(ch.id());
+                    // the process may have ended while it was being sampled (it then shows up as a
+                    // zombie): that is a normal termination, not a timeout
+                    if let Ok(Some(st)) = ch.try_wait() {
+                        status = match (st.code(), st.signal()) {
+                            (Some(c), _) => format!("exit:{}", c),
+                            (None, Some(s)) => format!("signal:{}", s),
+                            _ => "exit:?".into(),
+                        };
+                        break;
+                    }
                     cpu_last_s = c1.saturating_sub(c0);
                     thread_states = ts;
                     let _ = ch.kill();
@@ -956,7 +966,9 @@ fn judge(sc: &Scenario, o: &ChildOutcome, watchdog_s: u64) -> Judged {
         let finished: Vec<String> = done.iter().map(|l| l.split(' ').nth(1).unwrap_or("?").to_string()).collect();
         // asleep = no thread runnable and (almost) no CPU consumed in the last second: a deadlock;
         // otherwise the process was still computing (livelock / runaway / too slow): reported apart
-        let asleep = o.cpu_last_s <= 2 && !o.thread_states.iter().any(|t| t.contains(":R:"));
+        let asleep = o.cpu_last_s <= 2
+            && !o.thread_states.is_empty()
+            && !o.thread_states.iter().any(|t| t.contains(":R:") || t.contains(":Z:") || t.contains(":X:"));
         let kind = if asleep { "deadlock" } else { "no-termination-busy" };
         failures.push(serde_json::json!({
             "key": format!("{}:{}", kind, sc.class),
@@ -1247,7 +1259,10 @@ fn main() {
         for sc in &scenarios {
             let busy = {
                 let o = &oc[&sc.id];
-                o.status == "timeout" && !(o.cpu_last_s <= 2 && !o.thread_states.iter().any(|t| t.contains(":R:")))
+                o.status == "timeout"
+                    && !(o.cpu_last_s <= 2
+                        && !o.thread_states.is_empty()
+                        && !o.thread_states.iter().any(|t| t.contains(":R:") || t.contains(":Z:") || t.contains(":X:")))
             };
             if busy {
                 reruns += 1;
